@@ -214,7 +214,12 @@ pub fn c15(plan: &crate::plan::Plan, rec: &ExecRecord) -> Vec<Violation> {
     let mut push = |class: &str, detail: String| {
         out.push(Violation { property: "C15".into(), class: class.into(), detail });
     };
-    let injected: u64 = rec.faults_fired.iter().filter(|(k, _)| k.starts_with("job-")).map(|(_, v)| *v).sum();
+    let injected: u64 = rec
+        .faults_fired
+        .iter()
+        .filter(|(k, _)| k.starts_with("job-") || k.starts_with("io-step-err"))
+        .map(|(_, v)| *v)
+        .sum();
     match rec.outcome.class.as_str() {
         "signal" => push("killed", format!("the process died: {}", rec.outcome.detail)),
         "cpu-exhausted" => push("hang", format!("no result within {} s of CPU time: {}", crate::child::CPU_LIMIT_S, rec.outcome.detail)),
